@@ -3,22 +3,33 @@
 # Confirms a seeded change in the scratch worktree (demo fails with it, passes without, existing tests pass with it),
 # then applies it to /repo, runs the property's check and reverts.
 set -u
+# CONFIRMONLY=1 stops after the scratch-worktree confirmation (nothing is applied to /repo).
+# SKIPCONFIRM=1 skips the scratch-worktree confirmation (already done) and only re-runs the check
 id=$1; prop=$2; wt=$3; pkgdir=$4; runre=$5; tier=${6:-quick}; shift 6 2>/dev/null; extra="$@"
 export GOFLAGS=-mod=mod GOPROXY=off GOSUMDB=off GOTOOLCHAIN=local
 out=/verif/seeded/$id
 mkdir -p $out
+if [ -z "${SKIPCONFIRM:-}" ]; then
 cp $wt/_out/patch.diff $out/patch.diff
 cp $wt/_out/zz_demo_test.go $out/zz_demo_test.go
 cp $wt/_out/notes.md $out/notes.md 2>/dev/null
+fi
 moddir=$wt/dnsrocks; rel=${pkgdir#dnsrocks/}
 if [[ $pkgdir == dnsrocks/go-cdb-mods* ]]; then moddir=$wt/dnsrocks/go-cdb-mods; rel=${pkgdir#dnsrocks/go-cdb-mods}; rel=${rel#/}; fi
 [ -z "$rel" ] && rel=.
 restore() { git -C $wt checkout -- dnsrocks/go.mod dnsrocks/go.sum dnsrocks/go-cdb-mods/go.mod dnsrocks/go-cdb-mods/go.sum 2>/dev/null; }
+if [ -z "${SKIPCONFIRM:-}" ]; then
 cd $wt && git apply $out/patch.diff || { echo "patch does not apply"; exit 2; }
 cp $out/zz_demo_test.go $wt/$pkgdir/zz_demo_test.go
 (cd $moddir && go test -count=1 -vet=off -ldflags=-checklinkname=0 ./$rel -run "$runre" > $out/demo_with.log 2>&1); with=$?
 rm -f $wt/$pkgdir/zz_demo_test.go
 (cd $wt/dnsrocks && go test -count=1 -vet=off -ldflags=-checklinkname=0 ./... > $out/suite_with.log 2>&1); s1=$?
+if [ $s1 -ne 0 ]; then # ./dnsserver/ has wall-clock-sensitive reload tests that fail under load: retry the failing packages alone
+  s1=0; pks=$(grep -E '^(FAIL|panic)' $out/suite_with.log | grep -o 'dnsrocks/[a-z/-]*' | sort -u); [ -z "$pks" ] && s1=1
+  for pk in $(grep -E '^(FAIL|panic)' $out/suite_with.log | grep -o 'dnsrocks/[a-z/-]*' | sort -u); do
+    (cd $wt/dnsrocks && go test -count=1 -vet=off -p 1 -ldflags=-checklinkname=0 ./${pk#dnsrocks/}/ >> $out/suite_with.log 2>&1) || s1=1
+  done
+fi
 (cd $wt/dnsrocks/go-cdb-mods && go test -count=1 -vet=off . >> $out/suite_with.log 2>&1); s2=$?
 restore
 git -C $wt apply -R $out/patch.diff
@@ -27,9 +38,16 @@ cp $out/zz_demo_test.go $wt/$pkgdir/zz_demo_test.go
 rm -f $wt/$pkgdir/zz_demo_test.go
 restore
 echo "demo_with_change_exit=$with (want !=0) demo_without_exit=$without (want 0) suite_with_change_exit=$s1/$s2 (want 0/0)"
+echo "{\"with\":$with,\"without\":$without,\"suite\":\"$s1/$s2\"}" > $out/confirm.json
+fi
+[ -n "${CONFIRMONLY:-}" ] && exit 0
 # now the check against /repo
 git -C /repo apply $out/patch.diff || { echo "patch does not apply to /repo"; exit 2; }
+# the evidence file of the property must keep describing the unchanged tree: set it aside
+cp /verif/evidence/$prop.json /tmp/evidence_$prop.keep 2>/dev/null
 (cd /verif && bin/gosym check $prop --tier $tier $extra > $out/check_$tier.log 2>&1); chk=$?
 git -C /repo checkout -- .
+mv /verif/evidence/$prop.json $out/evidence_with_change.json 2>/dev/null
+mv /tmp/evidence_$prop.keep /verif/evidence/$prop.json 2>/dev/null
 echo "check_exit=$chk (want 1)"; grep -m3 "VIOLATION\|INCONCLUSIVE\|UNCONFIRMED" $out/check_$tier.log | cut -c1-200
-echo "{\"with\":$with,\"without\":$without,\"suite\":\"$s1/$s2\",\"check_exit\":$chk,\"tier\":\"$tier\"}" > $out/result_$tier.json
+echo "{\"confirm\":$(cat $out/confirm.json 2>/dev/null || echo null),\"check_exit\":$chk,\"tier\":\"$tier\"}" > $out/result_$tier.json
